@@ -100,18 +100,9 @@ def _pos(body):
     return f"all({body} for a in range(len({_AG})))"
 
 
-# ENGINE GAP (see notes/C01.requests.md): a subscript store through a class `setitem` hook (`hmtx[name] = ...`)
-# is not recognised by the loop havoc as a write to the field behind it (table_hmtx.metrics), so the loop cut
-# is rejected as "writes heap field not havocked".  The loop-effect scan does honour the `modifies` of contracts
-# named in `calls`; mapping the body's `ValueError(...)` constructor (never executed through `apply`) to an empty
-# summary that lists the field WIDENS the havoc (sound: more is forgotten, nothing is assumed).
-contract("c01:loop_effect_hmtx_metrics", props=[], params={}, modifies=["table_hmtx.metrics"],
-         notes="not a function: names the heap field the hmtx loop writes (havoc widening only)")
-
 contract(
     "ufo2ft.outlineCompiler:BaseOutlineCompiler.setupTable_hmtx",
     props=["C01"],
-    calls={"builtins:ValueError": "c01:loop_effect_hmtx_metrics"},
     params={"self": Ref("C01_Compiler")},
     modifies=["TTFont.tbl:hmtx", "table_hmtx.metrics"],  # frame: the font's 'hmtx' slot and the (new) table's metrics
     requires=[
@@ -269,7 +260,7 @@ CONTRACTS["ufo2ft.outlineCompiler:OutlineOTFCompiler.getDefaultAndNominalWidths"
 # =====================================================================================================
 # getCharStringForGlyph: the charstring pen gets (width', glyph set, roundTolerance=self.roundTolerance)
 
-cls("T2CharStringPen", fields={"width": Opt(REAL), "roundTolerance": REAL, "CFF2": BOOL, "glyphSet": Dict(STR, Ref("C01_Glyph")), "drawn": Ref("C01_Glyph")},
+cls("T2CharStringPen", fields={"width": Opt(INT), "roundTolerance": REAL, "CFF2": BOOL, "glyphSet": Dict(STR, Ref("C01_Glyph")), "drawn": Ref("C01_Glyph")},
     dynamic=True, methods={"__init__": record_init("width", "glyphSet", "roundTolerance", "CFF2", roundTolerance=0.5, CFF2=False)},
     notes="fontTools T2CharStringPen(width, glyphSet, roundTolerance=0.5, CFF2=False): constructor arguments recorded; "
           "`drawn` = the glyph drawn into it (ghost). TRUSTED: rounds every coordinate with roundFunc(roundTolerance), keeps contour order")
